@@ -174,29 +174,40 @@ Definition hevent := (Z * Z * result)%type.
 
 Definition mkev (t k id : Z) (e : option Z) : hevent := (t, k, {| r_id := id; r_exp := e |}).
 
-Fixpoint to_hev (prev : Z) (evs : list hevent) : list hev :=
-  match evs with
-  | [] => []
-  | (t, k, fr) :: r => Adv (t - prev) :: Req k fr 0 :: to_hev t r
-  end.
-
-Definition hist_run (f : fixes) (b : backend) (hk : hkind) (evs : list hevent) : list hout :=
-  let t0 := match evs with (t, _, _) :: _ => t | [] => 0 end in
+(** the model's lookup switch and ttl policy for a history *)
+Definition hist_lookup (f : fixes) (hk : hkind) : bool :=
   match hk with
-  | HMech m conf rule =>
-      let st := exec_state f m conf rule in
-      run b (lookup_enabled m st) (mech_policy f m st) t0 [] (to_hev t0 evs)
-  | HHttp dflt => run b true (http_policy f dflt) t0 [] (to_hev t0 evs)
+  | HMech m conf rule => lookup_enabled m (exec_state f m conf rule)
+  | HHttp _ => true
   end.
 
-(** [slack]: the Set ttl of the round tripper is [time.Until], read up to
-    [slack] after the request instant recorded by the driver *)
-Fixpoint hist_corr (slack : Z) (outs : list hout) (obs : list hobs) : bool :=
-  match outs, obs with
+Definition hist_policy (f : fixes) (hk : hkind) : result -> Z -> option Z :=
+  match hk with
+  | HMech m conf rule => mech_policy f m (exec_state f m conf rule)
+  | HHttp dflt => http_policy f dflt
+  end.
+
+(** Correspondence for histories is refinement too.  The cache state is built
+    with the cache semantics of the model ([cset]/[cget], checked exactly by the
+    [CCache] cases) from the ttls the implementation actually handed to [Set];
+    a request may be answered from cache only if the lookup is enabled and that
+    cache holds a live entry with exactly that payload; a ttl handed to [Set]
+    must be positive and at most the model's; answering from the remote system
+    although the cache could have answered, storing less or for a shorter time
+    is the implementation's freedom. *)
+Fixpoint hist_refines (b : backend) (lookup : bool) (policy : result -> Z -> option Z)
+         (c : cache result) (evs : list hevent) (obs : list hobs) : bool :=
+  match evs, obs with
   | [], [] => true
-  | Hit _ v :: r, HHit id :: r' => (r_id v =? id) && hist_corr slack r r'
-  | Miss _ _ _ None :: r, HMiss None :: r' => hist_corr slack r r'
-  | Miss _ _ _ (Some s) :: r, HMiss (Some s') :: r' => between (s - slack) s' s && hist_corr slack r r'
+  | (t, k, _) :: r, HHit id :: r' =>
+      lookup &&
+      match cget b t k c with Some v => r_id v =? id | None => false end &&
+      hist_refines b lookup policy c r r'
+  | _ :: r, HMiss None :: r' => hist_refines b lookup policy c r r'
+  | (t, k, fr) :: r, HMiss (Some s') :: r' =>
+      (0 <? s') &&
+      match policy fr t with Some s => s' <=? s | None => false end &&
+      hist_refines b lookup policy (cset b t k fr s' c) r r'
   | _, _ => false
   end.
 
@@ -264,22 +275,23 @@ Definition mevent := (Z * Z * option Z * option Z * result)%type.
 Definition mkmev (t k : Z) (conf rule : option Z) (id : Z) (e : option Z) : mevent :=
   (t, k, conf, rule, {| r_id := id; r_exp := e |}).
 
-Fixpoint to_mev (f : fixes) (m : mech) (prev : Z) (evs : list mevent) : list mev :=
-  match evs with
-  | [] => []
-  | (t, k, conf, rule, fr) :: r => MAdv (t - prev) :: MReq k (exec_state f m conf rule) fr 0 :: to_mev f m t r
-  end.
-
-Definition mix_run (f : fixes) (b : backend) (m : mech) (evs : list mevent) : list mout :=
-  let t0 := match evs with (t, _, _, _, _) :: _ => t | [] => 0 end in
-  runm b f m t0 [] (to_mev f m t0 evs).
-
-Fixpoint mix_corr (slack : Z) (outs : list mout) (obs : list hobs) : bool :=
-  match outs, obs with
+(** refinement, as for [CHist]; the cache is the family of caches indexed by the
+    part of the ttl state that is in the cache key ([nspace]) *)
+Fixpoint mix_refines (f : fixes) (b : backend) (m : mech) (cs : ncache) (evs : list mevent) (obs : list hobs) : bool :=
+  match evs, obs with
   | [], [] => true
-  | MHit _ _ v :: r, HHit id :: r' => (r_id v =? id) && mix_corr slack r r'
-  | MMiss _ _ _ _ None :: r, HMiss None :: r' => mix_corr slack r r'
-  | MMiss _ _ _ _ (Some s) :: r, HMiss (Some s') :: r' => between (s - slack) s' s && mix_corr slack r r'
+  | (t, k, conf, rule, _) :: r, HHit id :: r' =>
+      let st := exec_state f m conf rule in
+      lookup_enabled m st &&
+      match cget b t k (nget (nspace f m st) cs) with Some v => r_id v =? id | None => false end &&
+      mix_refines f b m cs r r'
+  | _ :: r, HMiss None :: r' => mix_refines f b m cs r r'
+  | (t, k, conf, rule, fr) :: r, HMiss (Some s') :: r' =>
+      let st := exec_state f m conf rule in
+      let n := nspace f m st in
+      (0 <? s') &&
+      match mech_policy f m st fr t with Some s => s' <=? s | None => false end &&
+      mix_refines f b m (nset n (cset b t k fr s' (nget n cs)) cs) r r'
   | _, _ => false
   end.
 
@@ -346,11 +358,11 @@ Definition check (f : fixes) (c : case) : verdict :=
       {| v_corr := cache_corr b [] ops; v_prop := cache_prop [] ops; v_guards := [] |}
   | CHist b hk slack xsets evs obs =>
       (* [xsets]: Set calls made while a request was answered from cache (the model makes none) *)
-      {| v_corr := (xsets =? 0) && hist_corr slack (hist_run f b hk evs) obs;
+      {| v_corr := (xsets =? 0) && hist_refines b (hist_lookup f hk) (hist_policy f hk) [] evs obs;
          v_prop := hist_prop_from slack hk evs obs evs obs;
          v_guards := guards (hist_guards f b hk evs) |}
   | CMix b m slack xsets evs obs =>
-      {| v_corr := (xsets =? 0) && mix_corr slack (mix_run f b m evs) obs;
+      {| v_corr := (xsets =? 0) && mix_refines f b m [] evs obs;
          v_prop := mix_prop slack m evs obs evs obs;
          v_guards := guards (mix_guards f m evs) |}
   | CBroken => {| v_corr := false; v_prop := true; v_guards := [] |}
